@@ -3032,6 +3032,8 @@ class WorkflowGraph(object):
         # VV: The new components are added to the unreplicated description (and replicated afterwards) so their
         #     references are to the components of the unreplicated description, exactly as in iteration 0
         foreign_components = self.configuration._unreplicated.get_component_identifiers(True, False)
+        # VV: ... and to the placeholders of looped components (e.g. a binding that points to another DoWhile)
+        foreign_components = set(foreign_components).union(FlowIR.discover_placeholder_identifiers(foreign_components))
 
         dw_components, _ = experiment.model.frontends.flowir.instantiate_dowhile(
             do_while, bindings, stage_idx, dw_comp_instantiate_name, foreign_components, label=dw_label,
